@@ -6,12 +6,14 @@ import (
 
 	"verif/internal/c02"
 	"verif/internal/c03"
+	"verif/internal/c11"
 	"verif/internal/c19"
 )
 
 func init() {
 	monitors["C02"] = c02.Run
 	monitors["C03"] = c03.Run
+	monitors["C11"] = c11.Run
 	monitors["C19"] = c19.Run
 }
 
